@@ -81,8 +81,10 @@ func (s String) Inspect() string {
 			break
 		}
 		if char == utf8.RuneError && size == 1 {
-			// invalid UTF-8 character
-			char = rune(leftStr[0])
+			// invalid UTF-8 character, always written as a raw byte escape
+			fmt.Fprintf(&buffer, `\x%02x`, leftStr[0])
+			leftStr = leftStr[size:]
+			continue
 		}
 		switch char {
 		case '\\':
